@@ -2,6 +2,7 @@
 import Lcapy.Model.CRat
 import Lcapy.Model.Decompose
 import Lcapy.Model.SuperSolve
+import Lcapy.Model.NoiseAlg
 import Lcapy.Spec.Noise
 import Lcapy.Driver.C01
 namespace Lcapy.Driver.C03
@@ -64,9 +65,25 @@ def parseSupLine (toks : List String) : Option Line :=
 
 def parseNoiseLine (idx : Nat) (toks : List String) : Option NLine :=
   match toks with
-  | [name, n1, n2, "noise", a] => (parseRat a).map (fun a => NLine.src ⟨name, name.startsWith "V", n1, n2, a, s!"auto{idx}"⟩)
-  | [name, n1, n2, "noise", a, nid] => (parseRat a).map (fun a => NLine.src ⟨name, name.startsWith "V", n1, n2, a, nid⟩)
+  | [name, n1, n2, "noise", a] => (Lcapy.Netlist.parseVal a).map (fun a => NLine.src ⟨name, name.startsWith "V", n1, n2, a, s!"auto{idx}"⟩)
+  | [name, n1, n2, "noise", a, nid] => (Lcapy.Netlist.parseVal a).map (fun a => NLine.src ⟨name, name.startsWith "V", n1, n2, a, nid⟩)
   | _ => some (NLine.plain toks)
+
+def parseNE (t : String) : Option (Lcapy.Noise.NE Rat) :=
+  match t.splitOn ":" with
+  | ["amp", re, im, nid] => do
+      let re ← parseRat re; let im ← parseRat im; let n ← nid.toNat?
+      some ⟨.amp re im, n⟩
+  | ["rss", p, nid] => do
+      let p ← parseRat p; let n ← nid.toNat?
+      some ⟨.rss p, n⟩
+  | _ => none
+
+def fmtNE (r : Option (Lcapy.Noise.NE Rat)) : String :=
+  match r with
+  | none => "none"
+  | some ⟨.amp re im, n⟩ => s!"amp:{ratToStr re}:{ratToStr im}:{n}"
+  | some ⟨.rss p, n⟩ => s!"rss:{ratToStr p}:{n}"
 
 def fmtAc (l : List (Rat × GQ)) : String :=
   "|".intercalate (l.map (fun (w, g) => s!"{ratToStr w}:{g}"))
@@ -92,6 +109,37 @@ def handle (toks : List String) : Option String :=
           s!"ok super {",".intercalate groups} " ++
             " ".intercalate (vals.map (fun r => s!"{r.node}={r.dc};{fmtAc r.ac};{r.tr};{r.total}"))
       | _, _ => "bad-op"
+  | ["nalg.op", op, fresh, x, y] => some <|
+      match fresh.toNat?, parseNE x, parseNE y with
+      | some f, some x, some y =>
+        if op = "add" then fmtNE (Lcapy.Noise.add f x y)
+        else if op = "sub" then fmtNE (Lcapy.Noise.sub f x y)
+        else "bad-op"
+      | _, _, _ => "bad-op"
+  | ["nalg.op", op, _fresh, x] => some <|
+      match parseNE x with
+      | some x =>
+        if op = "neg" then fmtNE (Lcapy.Noise.neg x)
+        else match op.splitOn ":" with
+          | ["smul", c] => match parseRat c with
+            | some c => fmtNE (Lcapy.Noise.smul c x)
+            | none => "bad-op"
+          | _ => "bad-op"
+      | none => "bad-op"
+  | "nalg.super" :: rest => some <|
+      -- `P1 + P2 + ... - Q1 - ...` on noise dictionaries: tokens `+nid:re:im` / `-nid:re:im`; reply: stored amplitudes and .n^2
+      let step (acc : Option (Lcapy.Noise.NDict Rat)) (t : String) : Option (Lcapy.Noise.NDict Rat) := do
+        let d ← acc
+        let neg := t.startsWith "-"
+        match ((t.drop 1).toString).splitOn ":" with
+        | [nid, re, im] => do
+            let n ← nid.toNat?; let re ← parseRat re; let im ← parseRat im
+            some (if neg then Lcapy.Noise.superSub d [(n, (re, im))] else Lcapy.Noise.superAdd d [(n, (re, im))])
+        | _ => none
+      match rest.foldl step (some []) with
+      | some d => s!"n2={ratToStr (Lcapy.Noise.totalPower d)} " ++
+          " ".intercalate (d.map (fun p => s!"{p.1}:{ratToStr p.2.1}:{ratToStr p.2.2}"))
+      | none => "bad-op"
   | "noise.resp" :: w :: pairs :: "||" :: rest => some <|
       -- per-source complex amplitude responses H_k(jw)·a_k between node pairs, and the spec's noise power
       let prs := (pairs.splitOn ",").filterMap (fun p => match p.splitOn ":" with | [a, b] => some (a, b) | _ => none)
